@@ -1,7 +1,201 @@
 package main
 
-// rewritePkg applies a source-to-source rewrite `kind` to copies of the Go
-// files of repo package directory `pkg` (filled in by later phases).
+import (
+	"go/ast"
+	"go/parser"
+	"go/token"
+	"os"
+	"path/filepath"
+	"sort"
+	"strconv"
+	"strings"
+)
+
+// rewritePkg applies a source-to-source rewrite `kind` to copies of the
+// non-test Go files of repo package directory `pkg` (relative to the repo
+// root) and maps the copies over the originals in the overlay. The copy is
+// taken from whatever currently stands for the file (a mutant copy if the
+// mutant patch touched it), so rewrites compose with --mutant.
+//
+// kinds:
+//
+//	vsync   import "sync"        -> sync   "<module>/verif_h/vsync"
+//	        import "sync/atomic" -> atomic "<module>/verif_h/vsync/atomic"
+//	        The local package name is kept (an explicit alias is preserved), so
+//	        no other token of the file changes; the splice is done on the bytes
+//	        of the import spec only (positions from go/parser), so line numbers
+//	        in the copy equal those of the original.
+//	vrange  spec "vrange:<pkgdir>=<expr>[+<expr>...]": every `for ... := range <expr>`
+//	        whose range operand is textually one of the listed expressions (which
+//	        must be maps) becomes `range sync.RangeMap(<expr>)`: under the
+//	        cooperative scheduler the map is walked in sorted key order (Go's
+//	        randomised map order would make schedules irreproducible); outside it
+//	        the native order is used. The file must import "sync" (apply after
+//	        vsync so that sync is package vsync). Same-line splice.
 func rewritePkg(ov *overlay, gen, kind, pkg string) {
-	die("rewrite %q not implemented", kind)
+	switch kind {
+	case "vsync":
+		rewriteImports(ov, gen, pkg, map[string][2]string{
+			"sync":        {"sync", modulePath() + "/verif_h/vsync"},
+			"sync/atomic": {"atomic", modulePath() + "/verif_h/vsync/atomic"},
+		})
+	case "vrange":
+		kv := strings.SplitN(pkg, "=", 2)
+		if len(kv) != 2 {
+			die("vrange needs <pkgdir>=<expr>[+<expr>]")
+		}
+		rewriteRanges(ov, gen, kv[0], strings.Split(kv[1], "+"))
+	default:
+		die("rewrite %q not implemented", kind)
+	}
+}
+
+func modulePath() string {
+	b, err := os.ReadFile(filepath.Join(*repo, "go.mod"))
+	must(err)
+	for _, l := range strings.Split(string(b), "\n") {
+		f := strings.Fields(l)
+		if len(f) == 2 && f[0] == "module" {
+			return f[1]
+		}
+	}
+	die("module path not found in go.mod")
+	return ""
+}
+
+type splice struct {
+	from, to int
+	text     string
+}
+
+// rewriteImports replaces import paths in every non-test .go file of pkg.
+// imports maps old path -> {default local name, new path}.
+func rewriteImports(ov *overlay, gen, pkg string, imports map[string][2]string) {
+	dir := filepath.Join(*repo, pkg)
+	ents, err := os.ReadDir(dir)
+	if err != nil {
+		die("rewrite: %v", err)
+	}
+	nfiles, nspecs := 0, 0
+	for _, e := range ents {
+		n := e.Name()
+		if e.IsDir() || !strings.HasSuffix(n, ".go") || strings.HasSuffix(n, "_test.go") {
+			continue
+		}
+		rel := filepath.Join(pkg, n)
+		abs := filepath.Join(*repo, rel)
+		if r, ok := ov.Replace[abs]; ok && r == "" {
+			continue // deleted by an earlier overlay step
+		}
+		from := src(ov, rel)
+		b, err := os.ReadFile(from)
+		must(err)
+		fset := token.NewFileSet()
+		f, err := parser.ParseFile(fset, from, b, parser.ImportsOnly)
+		if err != nil {
+			die("rewrite: parse %s: %v", from, err)
+		}
+		var sp []splice
+		for _, im := range f.Imports {
+			p, err := strconv.Unquote(im.Path.Value)
+			if err != nil {
+				continue
+			}
+			to, ok := imports[p]
+			if !ok {
+				continue
+			}
+			name := to[0]
+			if im.Name != nil {
+				name = im.Name.Name
+			}
+			sp = append(sp, splice{fset.Position(im.Pos()).Offset, fset.Position(im.End()).Offset,
+				name + " " + strconv.Quote(to[1])})
+		}
+		if len(sp) == 0 {
+			continue
+		}
+		sort.Slice(sp, func(i, j int) bool { return sp[i].from > sp[j].from })
+		for _, s := range sp {
+			b = append(append(append([]byte{}, b[:s.from]...), s.text...), b[s.to:]...)
+		}
+		dst := filepath.Join(gen, "rewrite", rel)
+		must(os.MkdirAll(filepath.Dir(dst), 0o755))
+		must(os.WriteFile(dst, b, 0o644))
+		ov.Replace[abs] = dst
+		nfiles++
+		nspecs += len(sp)
+	}
+	if nfiles == 0 {
+		die("rewrite: no file of %s imports any of the rewritten packages (wrong package dir?)", pkg)
+	}
+}
+
+// rewriteRanges wraps the operand of matching range statements (see rewritePkg).
+func rewriteRanges(ov *overlay, gen, pkg string, exprs []string) {
+	dir := filepath.Join(*repo, pkg)
+	ents, err := os.ReadDir(dir)
+	if err != nil {
+		die("rewrite: %v", err)
+	}
+	want := map[string]bool{}
+	for _, e := range exprs {
+		want[e] = true
+	}
+	nsites := 0
+	for _, e := range ents {
+		n := e.Name()
+		if e.IsDir() || !strings.HasSuffix(n, ".go") || strings.HasSuffix(n, "_test.go") {
+			continue
+		}
+		rel := filepath.Join(pkg, n)
+		abs := filepath.Join(*repo, rel)
+		if r, ok := ov.Replace[abs]; ok && r == "" {
+			continue
+		}
+		from := src(ov, rel)
+		b, err := os.ReadFile(from)
+		must(err)
+		fset := token.NewFileSet()
+		f, err := parser.ParseFile(fset, from, b, 0)
+		if err != nil {
+			die("rewrite: parse %s: %v", from, err)
+		}
+		var sp []splice
+		ast.Inspect(f, func(nd ast.Node) bool {
+			rs, ok := nd.(*ast.RangeStmt)
+			if !ok {
+				return true
+			}
+			lo, hi := fset.Position(rs.X.Pos()).Offset, fset.Position(rs.X.End()).Offset
+			if txt := string(b[lo:hi]); want[txt] {
+				sp = append(sp, splice{lo, hi, "sync.RangeMap(" + txt + ")"})
+			}
+			return true
+		})
+		if len(sp) == 0 {
+			continue
+		}
+		hasSync := false
+		for _, im := range f.Imports {
+			if (im.Name == nil && (im.Path.Value == `"sync"` || strings.HasSuffix(im.Path.Value, `/vsync"`))) || (im.Name != nil && im.Name.Name == "sync") {
+				hasSync = true
+			}
+		}
+		if !hasSync {
+			die("rewrite vrange: %s has a matching range site but does not import sync", rel)
+		}
+		sort.Slice(sp, func(i, j int) bool { return sp[i].from > sp[j].from })
+		for _, s := range sp {
+			b = append(append(append([]byte{}, b[:s.from]...), s.text...), b[s.to:]...)
+		}
+		dst := filepath.Join(gen, "rewrite", rel)
+		must(os.MkdirAll(filepath.Dir(dst), 0o755))
+		must(os.WriteFile(dst, b, 0o644))
+		ov.Replace[abs] = dst
+		nsites += len(sp)
+	}
+	if nsites == 0 {
+		die("rewrite vrange: no range site over %v found in %s", exprs, pkg)
+	}
 }
